@@ -47,7 +47,7 @@ PROPS = {
             "parts": [{"name": "probing", "test": "TestC17", "quick_checks": 20000, "thorough_checks": 2000000, "thorough_shards": 16}]},
     "C04": engine_prop("TestC04"),
     "C05": engine_prop("TestC05"),
-    "C06": engine_prop("TestC06"),
+    "C06": engine_prop("TestC06", quick=2400),
     "C07": engine_prop("TestC07"),
     "C08": engine_prop("TestC08"),
     "C09": engine_prop("TestC09"),
@@ -94,7 +94,7 @@ PROPS = {
         "level": "exploration",
         "assumptions": ENGINE_ASSUMPTIONS,
         "parts": [
-            {"name": "engine", "test": "TestC02", "quick_checks": 800, "thorough_checks": 60000, "thorough_shards": 16},
+            {"name": "engine", "test": "TestC02", "quick_checks": 2400, "thorough_checks": 60000, "thorough_shards": 16},
         ],
     },
     "C03": {
